@@ -33,7 +33,7 @@ class Job:
                  timeout=900, sentinel=None, cover=False, functions=(),
                  safety=None, known=(), replay=None, expect_obligations=(),
                  allow_nobody=(), includes=(), solver=None, note="", nondfcc=False,
-                 unwind_ok=False, objbits=12):
+                 unwind_ok=False, objbits=12, local_frame_ok=()):
         self.name = name
         self.harness = harness
         self.entry = entry
@@ -60,6 +60,7 @@ class Job:
         self.nondfcc = nondfcc
         self.unwind_ok = unwind_ok
         self.objbits = objbits
+        self.local_frame_ok = list(local_frame_ok)
 
 
 def sh(cmd, cwd=None, timeout=None, mem=True, stdout=subprocess.PIPE):
@@ -204,14 +205,37 @@ def run_job(job, work, tier, log):
     res, secs = cbmc(b, ["--trace"], "main")
     if not res:
         raise ToolProblem("job %s generated zero obligations" % job.name)
+    # anonymous "assertion" obligations (loop-contract checks of for(;;) loops): fetch their expressions
+    exprs = {}
+    if any((r.get("description") or "") == "assertion" for r in res):
+        rc_, out_, _, _ = sh(["cbmc", b, "--drop-unused-functions", "--show-properties", "--json-ui"], timeout=300)
+        try:
+            for x in json.loads(out_):
+                for pr in x.get("properties", []) if isinstance(x, dict) else []:
+                    exprs[pr.get("name")] = pr.get("expression")
+        except Exception:
+            pass
     obligations = []
     for r in res:
+        if (r.get("description") or "") == "assertion" and exprs.get(r.get("property")):
+            r["description"] = "loop contract / instrumentation assertion: " + exprs[r["property"]]
         o = {"name": r.get("property"), "status": r.get("status"),
              "description": r.get("description"),
              "file": r.get("sourceLocation", {}).get("file"),
              "line": r.get("sourceLocation", {}).get("line"),
              "function": r.get("sourceLocation", {}).get("function")}
         if r.get("status") == "FAILURE":
+            # dfcc tool artefact (documented in DESIGN.md 2.3): a local declared in a loop body and stored
+            # to in a loop-exit block is checked against the function write set, where its DECL was never
+            # recorded.  A function's own automatic variable is invisible to callers, so the frame check is
+            # moot; only the explicitly listed (function, local) pairs are exempted.
+            m_ = re.match(r"Check that (\w+) is assignable", o["description"] or "")
+            if m_ and (o["function"], m_.group(1)) in [tuple(x) for x in job.local_frame_ok] and ".assigns." in (o["name"] or ""):
+                o["status"] = "SUCCESS"
+                o["note"] = "frame check on the function's own local (dfcc artefact), exempted"
+                info.setdefault("exempted", []).append(o["name"])
+                obligations.append(o)
+                continue
             o["inputs"] = trace_inputs(r.get("trace"))
         obligations.append(o)
     names = [o["name"] for o in obligations]
@@ -224,6 +248,7 @@ def run_job(job, work, tier, log):
             raise ToolProblem("vacuity guard: expected obligation /%s/ missing in %s" % (pat, job.name))
     if job.loops:
         if not any("loop_invariant_step" in (n or "") or "invariant" in (o["description"] or "")
+                   or "wrapped_for_contract_checking" in (n or "")
                    for n, o in zip(names, obligations)):
             raise ToolProblem("vacuity guard: loop contract silently dropped in %s" % job.name)
     info["obligations"] = obligations
@@ -279,6 +304,7 @@ def main():
     ap.add_argument("--only", default=None)
     ap.add_argument("--keep", action="store_true")
     ap.add_argument("--replay", default=None)
+    ap.add_argument("--timeout", type=int, default=None)
     args = ap.parse_args()
     pid = args.prop
     tier = args.tier if args.tier in ("quick", "thorough") else "quick"
@@ -294,6 +320,9 @@ def main():
     jobs = [j for j in mod.jobs(tier) if (tier == "thorough" or j.tier == "quick")]
     if args.only:
         jobs = [j for j in jobs if re.search(args.only, j.name)]
+    if args.timeout:
+        for j in jobs:
+            j.timeout = args.timeout
     t0 = time.time()
     work = tempfile.mkdtemp(prefix="verif_%s_" % pid)
     results, problems = [], []
